@@ -334,8 +334,14 @@ func (s *Server) followStep(host string, port int, followc int) error {
 	}
 
 	nullw := io.Discard
+	// lpos is the position in the log of the leader of the next streamed
+	// command. Caught up means that the stream has been consumed up to the
+	// size the leader reported. The size of the own log cannot tell: the
+	// follower appends records of its own (expired objects and hooks) and
+	// skips commands that did not update.
+	lpos := pos
 	for {
-		v, telnet, _, err := conn.rd.ReadMultiBulk()
+		v, telnet, n, err := conn.rd.ReadMultiBulk()
 		if err != nil {
 			return err
 		}
@@ -355,8 +361,13 @@ func (s *Server) followStep(host string, port int, followc int) error {
 		s.mu.Lock()
 		s.faofsz = aofsz
 		s.mu.Unlock()
+		if len(svals) == 0 || strings.ToLower(svals[0]) != "publish" {
+			// (publish messages are written to the connection by the leader,
+			// they are not part of its log)
+			lpos += int64(n)
+		}
 		if !caughtUp {
-			if aofsz >= int(aofSize) {
+			if lpos >= aofSize {
 				caughtUp = true
 				s.mu.Lock()
 				s.flushAOF(false)
